@@ -603,5 +603,12 @@ def c07_aperture_scaled_once(ctx):
     return _r(ctx)
 
 
-RULES = [c07_aperture_scaled_once, c17_pol_entries, c02_lossless_without_k, index_edit, c17_coating_media, derived_sync_rule, c12_arg_names, no_stale, wmw_intensity, write_shape, beer_lambert, lost_write, aperture,
+def c17_fresnel_power(ctx):
+    """shared with C17: 'never increases' - a passive uncoated lens must not
+    report more than the launched intensity"""
+    from .C17 import fresnel_power as _r
+    return _r(ctx)
+
+
+RULES = [c17_fresnel_power, c07_aperture_scaled_once, c17_pol_entries, c02_lossless_without_k, index_edit, c17_coating_media, derived_sync_rule, c12_arg_names, no_stale, wmw_intensity, write_shape, beer_lambert, lost_write, aperture,
          coating_pair, record_intensity]
